@@ -6,16 +6,26 @@ import Nervus.Proofs.ReopenRec
 namespace Nervus.Storage
 open Nervus.GraphSpec (TxOp Op)
 
-/-- what `open` would recover from the log of `s`: the interner, a clean scan, and — from ANY idmap
-    that covers the external ids of `s` and holds the persisted first labels — the label vectors of `s`
-    and runs that no read can tell from the published ones -/
+/-- what `open` would recover from the log of `s`: the interner, the manifest / checkpoint state, and —
+    from ANY idmap that covers the external ids of `s` and holds the persisted first labels — the label
+    vectors of `s` and, from the transactions newer than the checkpoint, runs that no read can tell
+    from the published ones.  The txid bounds keep the checkpoint skip and the txid counter sound. -/
 structure Rec (s : Engine) : Prop where
-  inv : ∃ txs, Blocks s.wal txs ∧ replayLabels txs = .ok s.interner ∧ ScanClean txs ∧
-    ∀ (m0 : IdMap) (T : List (List Nat)),
+  inv : ∃ txs, Blocks s.wal txs ∧ replayLabels txs = .ok s.interner ∧
+    ScanIs s.epoch (s.segs.map (·.id)) s.ckptTxid s.propsRoot txs ∧
+    (∀ (m0 : IdMap) (T : List (List Nat)),
       (∀ x iid, s.idmap.lookup x = some iid → m0.lookup x = some iid) →
       m0.i2l = s.idmap.i2e.map (fun r => [r.label]) ++ T →
-      ∃ R, replayGraph txs 0 m0 = .ok ({ m0 with i2l := s.idmap.i2l ++ T }, R) ∧ RunsEq R.reverse s.runs
+      ∃ R, replayGraph txs s.ckptTxid m0 = .ok ({ m0 with i2l := s.idmap.i2l ++ T }, R) ∧
+        RunsEq R.reverse s.runs) ∧
+    s.ckptTxid ≤ (scanRecovery txs).maxTxid ∧ (∀ r ∈ s.runs, r.txid ≤ (scanRecovery txs).maxTxid) ∧
+    (scanRecovery txs).maxTxid < s.nextTxid
   txidPos : 1 ≤ s.nextTxid
+  runsAbove : ∀ r ∈ s.runs, s.ckptTxid < r.txid
+
+theorem Rec.ckptLt {s : Engine} (h : Rec s) : s.ckptTxid < s.nextTxid := by
+  obtain ⟨⟨txs, _, _, _, _, h1, _, h3⟩, _, _⟩ := h
+  omega
 
 theorem RunsEq.refl : ∀ rs : List Run, RunsEq rs rs
   | [] => RunsEq.nil
@@ -23,19 +33,25 @@ theorem RunsEq.refl : ∀ rs : List Run, RunsEq rs rs
       fun _ => Iff.rfl, fun _ => Iff.rfl⟩ (RunsEq.refl rs)
 
 theorem Rec.empty : Rec {} := by
-  refine ⟨⟨[], Blocks.nil, rfl, ⟨rfl, rfl, rfl, rfl⟩, ?_⟩, Nat.le_refl _⟩
-  intro m0 T _ h2
-  refine ⟨[], ?_, RunsEq.nil⟩
-  have : ({ m0 with i2l := ({} : Engine).idmap.i2l ++ T } : IdMap) = m0 := by
-    cases m0; simp only at h2 ⊢; rw [h2]; rfl
-  rw [this]; rfl
+  refine ⟨⟨[], Blocks.nil, rfl, ⟨rfl, rfl, rfl, rfl⟩, ?_, Nat.le_refl _, ?_, Nat.lt_succ_self _⟩, Nat.le_refl _, ?_⟩
+  · intro m0 T _ h2
+    refine ⟨[], ?_, RunsEq.nil⟩
+    have : ({ m0 with i2l := ({} : Engine).idmap.i2l ++ T } : IdMap) = m0 := by
+      cases m0; simp only at h2 ⊢; rw [h2]; rfl
+    rw [this]; rfl
+  · intro r hr; cases hr
+  · intro r hr; cases hr
 
-/-- `Rec` only looks at the log, the interner, the idmap, the runs and the txid counter -/
+/-- `Rec` only looks at the log, the interner, the idmap, the runs, the manifest fields and the txid counter -/
 theorem Rec.congr {s s' : Engine} (h : Rec s) (h1 : s'.wal = s.wal) (h2 : s'.interner = s.interner)
-    (h3 : s'.idmap = s.idmap) (h4 : s'.runs = s.runs) (h5 : s.nextTxid ≤ s'.nextTxid) : Rec s' := by
-  obtain ⟨⟨txs, hb, hl, hs, hg⟩, hp⟩ := h
-  refine ⟨⟨txs, by rw [h1]; exact hb, by rw [h2]; exact hl, hs, ?_⟩, Nat.le_trans hp h5⟩
-  rw [h3, h4]; exact hg
+    (h3 : s'.idmap = s.idmap) (h4 : s'.runs = s.runs) (h5 : s.nextTxid ≤ s'.nextTxid)
+    (h6 : s'.epoch = s.epoch) (h7 : s'.segs = s.segs) (h8 : s'.ckptTxid = s.ckptTxid)
+    (h9 : s'.propsRoot = s.propsRoot) : Rec s' := by
+  obtain ⟨⟨txs, hb, hl, hs, hg, b1, b2, b3⟩, hp, ha⟩ := h
+  refine ⟨⟨txs, by rw [h1]; exact hb, by rw [h2]; exact hl, by rw [h6, h7, h8, h9]; exact hs, ?_,
+    by rw [h8]; exact b1, by rw [h4]; exact b2, Nat.lt_of_lt_of_le b3 h5⟩, Nat.le_trans hp h5,
+    by rw [h4, h8]; exact ha⟩
+  rw [h3, h4, h8]; exact hg
 
 theorem freeze_empty (t : Nat) : (({} : MemTable).freeze t).isEmpty = true := rfl
 
@@ -45,8 +61,11 @@ theorem Rec.intern {s : Engine} (h : Rec s) (nm : Nat) : Rec (s.getOrCreateLabel
   | some id => exact h
   | none =>
     simp only
-    obtain ⟨⟨txs, hb, hl, hs, hg⟩, hp⟩ := h
-    refine ⟨⟨txs ++ [(s.nextTxid, [WalRec.createLabel nm s.interner.length])], ?_, ?_, ?_, ?_⟩, Nat.le_succ_of_le hp⟩
+    have hck := h.ckptLt
+    obtain ⟨⟨txs, hb, hl, hs, hg, b1, b2, b3⟩, hp, ha⟩ := h
+    have hmax := scan_maxTxid_append txs (s.nextTxid, [WalRec.createLabel nm s.interner.length])
+    refine ⟨⟨txs ++ [(s.nextTxid, [WalRec.createLabel nm s.interner.length])], ?_, ?_, ?_, ?_, ?_, ?_, ?_⟩,
+      Nat.le_succ_of_le hp, ha⟩
     · exact hb.append s.nextTxid [WalRec.createLabel nm s.interner.length]
         (by intro r hr; simp only [List.mem_singleton] at hr; subst hr; rfl)
     · exact replayLabels_append_new txs s.interner hl s.nextTxid nm hq
@@ -55,11 +74,14 @@ theorem Rec.intern {s : Engine} (h : Rec s) (nm : Nat) : Rec (s.getOrCreateLabel
       obtain ⟨R, hR, hE⟩ := hg m0 T hc hi
       refine ⟨R, ?_, hE⟩
       rw [replayGraph_eq, List.foldlM_append, ← replayGraph_eq, hR]
-      show ([(s.nextTxid, [WalRec.createLabel nm s.interner.length])].foldlM (replayStep 0) _) = _
+      show ([(s.nextTxid, [WalRec.createLabel nm s.interner.length])].foldlM (replayStep s.ckptTxid) _) = _
       rw [List.foldlM_cons]
-      have hpos : ¬ s.nextTxid ≤ 0 := by omega
+      have hpos : ¬ s.nextTxid ≤ s.ckptTxid := by omega
       simp only [replayStep, hpos, if_false, List.foldlM_cons, List.foldlM_nil, replayOp]
       rfl
+    · rw [hmax]; exact Nat.le_trans b1 (Nat.le_max_left _ _)
+    · intro r hr; rw [hmax]; exact Nat.le_trans (b2 r hr) (Nat.le_max_left _ _)
+    · rw [hmax]; show max _ s.nextTxid < s.nextTxid + 1; omega
 
 theorem Rec.stepTx (c : Cfg) (s : Engine) (t : Txn) (op : TxOp) (h : Rec s) : Rec (stepTx c (s, t) op).1 := by
   cases op with
@@ -84,7 +106,7 @@ theorem Rec.stepTx (c : Cfg) (s : Engine) (t : Txn) (op : TxOp) (h : Rec s) : Re
     unfold Txn.setVector
     split
     · exact h
-    · exact h.congr rfl rfl rfl rfl (Nat.le_refl _)
+    · exact h.congr rfl rfl rfl rfl (Nat.le_refl _) rfl rfl rfl rfl
 
 theorem Rec.fold (c : Cfg) (ops : List TxOp) : ∀ st : Engine × Txn, Rec st.1 → Rec (ops.foldl (Storage.stepTx c) st).1 := by
   induction ops with
